@@ -19,6 +19,8 @@ VERIF = os.path.dirname(os.path.dirname(os.path.abspath(__file__)))
 REPO = os.environ.get("VERIF_REPO", "/repo")
 SRC = os.environ.get("VERIF_SRC", os.path.join(REPO, "src"))
 NPROC = int(os.environ.get("VERIF_NPROC", "16"))
+# where evidence and replay files go; only tools/regress_seeds.sh points this elsewhere (scratch runs against patched worktrees)
+OUT = os.environ.get("VERIF_OUT", VERIF)
 
 
 class InternalError(Exception):
@@ -132,7 +134,7 @@ class Ctx:
         self.log("CAP " + msg)
 
     def write_replay(self, case: dict, idx: int) -> str:
-        d = os.path.join(VERIF, "replays")
+        d = os.path.join(OUT, "replays")
         os.makedirs(d, exist_ok=True)
         p = os.path.join(d, f"{self.pid}_{idx:03d}.json")
         with open(p, "w") as fh:
@@ -158,8 +160,8 @@ class Ctx:
             "wall_s": round(wall, 2),
             "violations": len(self.violations),
         }
-        os.makedirs(os.path.join(VERIF, "evidence"), exist_ok=True)
-        with open(os.path.join(VERIF, "evidence", f"{self.pid}.json"), "w") as fh:
+        os.makedirs(os.path.join(OUT, "evidence"), exist_ok=True)
+        with open(os.path.join(OUT, "evidence", f"{self.pid}.json"), "w") as fh:
             json.dump(ev, fh, indent=1, default=repr)
         for fid, cases in sorted(self.known.items()):
             f = next(x for x in self.findings if x["id"] == fid)
@@ -168,7 +170,7 @@ class Ctx:
                 f"({len(cases)} case(s) reproduced, e.g. {json.dumps(cases[0], default=repr)[:300]})"
             )
         import glob
-        for old in glob.glob(os.path.join(VERIF, "replays", f"{self.pid}_*.json")):
+        for old in glob.glob(os.path.join(OUT, "replays", f"{self.pid}_*.json")):
             os.remove(old)
         hist: dict = {}
         for v in self.violations:
